@@ -97,6 +97,17 @@ template <class SJ, class R> static void stateful_scn(const std::string& what, c
     else if (what == "assign") { SJ a = mk(al1); SJ b = mk(al2); std::optional<SJ> t; window(n, r, [&] { b = a; t.emplace(mk(al2)); a = std::move(*t); SJ scalar(7); scalar = b[3]; }); r.usable = usable(a) && usable(b); }
     else { SJ a = mk(al1); SJ b = mk(al2); window(n, r, [&] { a.push_back(b); a.insert(a.array_range().begin(), b); a[4].insert_or_assign("another long member name 0123456789", b); a.swap(b); }); r.usable = usable(a) && usable(b); }
 }
+// the same with wide characters: a block holding wchar_t text must go back with the size in BYTES it was requested with
+using swjson = basic_json<wchar_t, sorted_policy, SAlloc>;
+template <class R> static void stateful_w(const std::string& what, long n, R& r) {
+    SAlloc al1(TrackAlloc<char>(1)), al2(TrackAlloc<char>(2));
+    auto mk = [&](const SAlloc& al) { swjson j(json_array_arg, al); for (int i = 0; i < 3; ++i) j.push_back(swjson(std::wstring(L"a long wide string value 0123456789 ") + std::to_wstring(i), al));
+                                      swjson o(json_object_arg, al); o.try_emplace(L"a long wide member name 0123456789", swjson(std::wstring(41, L'w'), al)); j.push_back(std::move(o)); return j; };
+    auto ok = [](const swjson& j) { try { std::wstring t; j.dump(t); return !t.empty(); } catch (...) { return false; } };
+    if (what == "copy") { swjson a = mk(al1); std::optional<swjson> b, c2, c3; window(n, r, [&] { b.emplace(a); c2.emplace(a, al2); c3.emplace(a[3], al2); }); r.usable = ok(a); }
+    else if (what == "assign") { swjson a = mk(al1); swjson b = mk(al2); std::optional<swjson> t; window(n, r, [&] { b = a; t.emplace(mk(al2)); a = std::move(*t); swjson scalar(7); scalar = b[3]; }); r.usable = ok(a) && ok(b); }
+    else { swjson a = mk(al1); swjson b = mk(al2); window(n, r, [&] { a.push_back(b); a.insert(a.array_range().begin(), b); a[4].insert_or_assign(L"another long wide member name 0123456789", b); a.swap(b); }); r.usable = ok(a) && ok(b); }
+}
 static void run_scenario(const mj::Value& c, long n, bool log = true) {
     const std::string scn = c["scn"].str(); std::string text = jc::units_to_string(c["text"]);
     Result r;
@@ -163,6 +174,7 @@ static void run_scenario(const mj::Value& c, long n, bool log = true) {
                                     json_string_cursor c2(text); size_t k = 0; for (; !c2.done(); c2.next()) { if (c2.current().event_type() == staj_event_type::string_value) k += c2.current().get<std::string>().size(); } (void)k; }); }
         else if (scn == "sort-erase") { json a = json::parse("[\"a long string value 3 0123456789\",\"a long string value 1 0123456789\",[3,2,1],{\"k\":\"a long string value 2 0123456789\"},2,1]"); json src = json::parse(text);
             window(n, r, [&] { a.push_back(src); std::sort(a.array_range().begin(), a.array_range().end()); a.erase(a.array_range().begin(), a.array_range().begin() + 2); a.insert(a.array_range().end(), src); json o = json::parse("{\"b\":1,\"a\":2}"); o.erase(o.object_range().begin(), o.object_range().end()); }); r.usable = usable(a) && usable(src); }
+        else if (scn.rfind("stateful-w-", 0) == 0) { stateful_w(scn.substr(11), n, r); }
         else if (scn.rfind("stateful-o-", 0) == 0) { stateful_scn<sojson>(scn.substr(11), text, n, r); }
         else if (scn.rfind("stateful-", 0) == 0) { stateful_scn<sjson>(scn.substr(9), text, n, r); }
         logev('E', r.out == "ok" ? 0 : r.out == "bad_alloc" ? 1 : 2, 0, 0);
